@@ -107,10 +107,7 @@ func (c *OCSPRevocationChecker) calculateEvictionTime(response *ocsp.Response) t
 }
 
 func (c *OCSPRevocationChecker) parseOcspResponse(certCandidates []*core.CertificateChainEntry, output []byte, ocspServer string) (*ocsp.Response, error) {
-	ocspResponse, err := ocsp.ParseResponse(output, nil)
-	if err == nil {
-		return ocspResponse, nil
-	}
+	//the response is only accepted if its signature can be verified with (or is delegated by) an issuer candidate
 	for _, certCandidate := range certCandidates {
 		ocspResponse, err := ocsp.ParseResponse(output, certCandidate.Certificate)
 		if err != nil {
